@@ -16,7 +16,7 @@ pub struct C18;
 const M: u64 = 2147483647; // 2^31 - 1
 const CHUNK: u64 = 1 << 20;
 
-const PANEL: [(f32, f32); 10] = [
+const PANEL: [(f32, f32); 12] = [
     (0.0, 1.0),
     (-1.0, 1.0),
     (0.25, 0.25),
@@ -27,6 +27,8 @@ const PANEL: [(f32, f32); 10] = [
     (-0.3, 0.9),
     (1.0, 1.0000001),
     (-16777216.0, 16777217.0),
+    (-3.0e38, 3.0e38),
+    (f32::MIN, f32::MAX),
 ];
 
 fn check_generate(s: u64, out: &mut Out, per_sig: &mut Vec<String>) {
@@ -162,7 +164,7 @@ impl Monitor for C18 {
         }
     }
     fn rule(&self) -> &'static str {
-        "states_*: one case per chunk of seeds s; create(s) + one draw visits generator state 48271*s mod m (a bijection on [1,m-1]); per state: generate() over a 10-pair (min,max) panel must be finite and in [min,max], shuffle(len 1) and shuffle(len 2..6) must return a permutation without panicking, states whose unit draw is >= 0.999999 are swept over every len 1..200; distinct = number of distinct states visited. seeds: seed classes (0, 1, small, around m, multiples of m, 2^32, >3.8e14, u64::MAX, timestamps) x lengths 0..200: no panic, permutation, purity. clock: Tensor::random's possible clock seeds (subsec_micros in [0,1e6)) replayed through Generator for 256 draws. tensor_random: Tensor::random itself for every rank."
+        "states_*: one case per chunk of seeds s; create(s) + one draw visits generator state 48271*s mod m (a bijection on [1,m-1]); per state: generate() over a 12-pair (min,max) panel (incl. two intervals whose width overflows f32) must be finite and in [min,max], shuffle(len 1) and shuffle(len 2..6) must return a permutation without panicking, states whose unit draw is >= 0.999999 are swept over every len 1..200; distinct = number of distinct states visited. seeds: seed classes (0, 1, small, around m, multiples of m, 2^32, >3.8e14, u64::MAX, timestamps) x lengths 0..200: no panic, permutation, purity. clock: Tensor::random's possible clock seeds (subsec_micros in [0,1e6)) replayed through Generator for 256 draws. tensor_random: Tensor::random itself for every rank."
     }
     fn assumptions(&self) -> Vec<&'static str> {
         vec![
